@@ -33,6 +33,8 @@ POS_KINDS = {"lon", "lat", "colat"}
 # which of the two axes of an ellipse a width describes: the first (a / sx /
 # major) or the second (b / sy / minor)
 AXIS_KINDS = {"ax1", "ax2"}
+# sexagesimal strings: hours:min:sec (right ascension) or deg:min:sec
+SEXA_KINDS = {"hms", "dms"}
 
 
 def close(a, b):
@@ -80,6 +82,8 @@ def colarray(*cols, src=frozenset()):
 
 
 DEG = U("deg")
+# an angle handed over as a position angle / rotation: its sign matters
+ANG = U("deg", "ang")
 RAD = U("rad")
 ONE = U("1")
 LON_DEG, LAT_DEG = U("deg", "lon"), U("deg", "lat")
@@ -101,13 +105,15 @@ SRC_FIELDS = {
     "a": U("arcsec", "fwhm ax1"), "b": U("arcsec", "fwhm ax2"),
     "err_a": U("arcsec"), "err_b": U("arcsec"),
     "psf_a": U("arcsec", "fwhm ax1"), "psf_b": U("arcsec", "fwhm ax2"),
-    "pa": DEG, "err_pa": DEG, "psf_pa": DEG,
+    "pa": ANG, "err_pa": DEG, "psf_pa": ANG,
+    "ra_str": AV(num="str", kind=fs("hms", "lon")),
+    "dec_str": AV(num="str", kind=fs("dms", "lat")),
 }
 LMFIT_SUFFIX = {
     "xo": U(idx=Idx("row", 0, ("rel", "island"))),
     "yo": U(idx=Idx("col", 0, ("rel", "island"))),
     "sx": U("pix", "sigma ax1"), "sy": U("pix", "sigma ax2"),
-    "theta": U("deg"),
+    "theta": ANG,
 }
 
 # fitting.errors() is called after result_to_components has rewritten the
@@ -127,47 +133,53 @@ CONTRACTS = {
                                 dec2=LAT_DEG), ret=lambda a: DEG),
     A + "bear": dict(params=dict(ra1=LON_DEG, dec1=LAT_DEG, ra2=LON_DEG,
                                  dec2=LAT_DEG), ret=lambda a: DEG),
+    A + "dec2hms": dict(params=dict(x=U("deg")),
+                        ret=lambda a: AV(num="str", kind=fs("hms") | (
+                            (a.get("x", TOP).kind or fs()) & POS_KINDS))),
+    A + "dec2dms": dict(params=dict(x=U("deg")),
+                        ret=lambda a: AV(num="str", kind=fs("dms") | (
+                            (a.get("x", TOP).kind or fs()) & POS_KINDS))),
     A + "translate": dict(params=dict(ra=LON_DEG, dec=LAT_DEG, r=DEG,
-                                      theta=DEG),
+                                      theta=ANG),
                           ret=lambda a: SKYPOS),
     W + "pix2sky": dict(params=dict(pixel=PIX1), ret=lambda a: SKYPOS),
     W + "sky2pix": dict(params=dict(pos=SKYPOS),
                         ret=lambda a: AV(num="obj", elts=(ROW1, COL1))),
-    W + "sky2pix_vec": dict(params=dict(pos=SKYPOS, r=DEG, pa=DEG),
+    W + "sky2pix_vec": dict(params=dict(pos=SKYPOS, r=DEG, pa=ANG),
                             ret=lambda a: AV(num="obj", elts=(
-                                ROW1, COL1, U("pix"), DEG))),
-    W + "pix2sky_vec": dict(params=dict(pixel=PIX1, r=U("pix"), theta=DEG),
+                                ROW1, COL1, U("pix"), ANG))),
+    W + "pix2sky_vec": dict(params=dict(pixel=PIX1, r=U("pix"), theta=ANG),
                             ret=lambda a: AV(num="obj", elts=(
-                                LON_DEG, LAT_DEG, DEG, DEG))),
+                                LON_DEG, LAT_DEG, DEG, ANG))),
     W + "sky2pix_ellipse": dict(
         params=dict(pos=SKYPOS, a=U("deg", "ax1"), b=U("deg", "ax2"),
-                    pa=DEG),
+                    pa=ANG),
         ret=lambda a: AV(num="obj", elts=(
             ROW1, COL1, U("pix", a.get("a", TOP).kind),
-            U("pix", a.get("b", TOP).kind), DEG))),
+            U("pix", a.get("b", TOP).kind), ANG))),
     W + "pix2sky_ellipse": dict(
         params=dict(pixel=PIX1, sx=U("pix", "ax1"), sy=U("pix", "ax2"),
-                    theta=DEG),
+                    theta=ANG),
         ret=lambda a: AV(num="obj", elts=(
             LON_DEG, LAT_DEG, U("deg", a.get("sx", TOP).kind),
-            U("deg", a.get("sy", TOP).kind), DEG))),
+            U("deg", a.get("sy", TOP).kind), ANG))),
     W + "get_psf_sky2sky": dict(params=dict(ra=LON_DEG, dec=LAT_DEG),
                                 ret=lambda a: AV(num="obj", elts=(
                                     U("deg", "fwhm ax1"),
-                                    U("deg", "fwhm ax2"), DEG))),
+                                    U("deg", "fwhm ax2"), ANG))),
     W + "get_psf_sky2pix": dict(params=dict(ra=LON_DEG, dec=LAT_DEG),
                                 ret=lambda a: AV(num="obj", elts=(
                                     U("pix", "fwhm ax1"),
-                                    U("pix", "fwhm ax2"), DEG))),
+                                    U("pix", "fwhm ax2"), ANG))),
     W + "get_psf_pix2pix": dict(params=dict(),
                                 ret=lambda a: AV(num="obj", elts=(
                                     U("pix", "fwhm ax1"),
-                                    U("pix", "fwhm ax2"), DEG))),
+                                    U("pix", "fwhm ax2"), ANG))),
     W + "get_skybeam": dict(params=dict(ra=LON_DEG, dec=LAT_DEG),
                             ret=lambda a: AV(num="obj", cls="Beam",
                                              elts=(U("deg", "fwhm ax1"),
                                                    U("deg", "fwhm ax2"),
-                                                   DEG))),
+                                                   ANG))),
     W + "get_beamarea_pix": dict(params=dict(ra=LON_DEG, dec=LAT_DEG),
                                  ret=lambda a: TOP),
     W + "get_beamarea_deg2": dict(params=dict(ra=LON_DEG, dec=LAT_DEG),
@@ -176,7 +188,7 @@ CONTRACTS = {
                         ret=lambda a: DEG),
     PKG + ".fitting.elliptical_gaussian": dict(
         params=dict(sx=U("pix", "sigma ax1"), sy=U("pix", "sigma ax2"),
-                    theta=DEG),
+                    theta=ANG),
         ret=lambda a: TOP),
     PKG + ".regions.Region.sky2ang": dict(
         params=dict(sky=colarray(LON_RAD, LAT_RAD)),
@@ -322,7 +334,7 @@ class UnitLib(Lib):
                 return U("pix", "fwhm ax1" if attr == "_psf_a"
                          else "fwhm ax2")
             if attr == "_psf_theta":
-                return DEG
+                return ANG
             if attr == "wcs":
                 return AV(num="obj", cls="astropy.WCS")
         if cq == PKG + ".regions.Region" and attr == "maxdepth":
@@ -375,6 +387,9 @@ class UnitLib(Lib):
             return v
         sc = (v.scale if v.scale is not None else 1.0) * factor
         unit, kind = v.unit, v.kind
+        if factor < 0:
+            kind = self._flip(kind)
+            sc = -sc
         hit = False
         if unit is not None:
             add = {t for f, s, t in UNIT_CONV if close(sc, f) and s in unit}
@@ -453,6 +468,8 @@ class UnitLib(Lib):
             kind = (lk & rk) or None
         else:
             kind = lk if lk is not None else rk
+            if lk is None and rk is not None and isinstance(op, ast.Sub):
+                kind = self._flip(rk)
         return res.with_(unit=unit, kind=kind)
 
     def idx_add(self, it, node, l: AV, r: AV, res: AV, op, lnode, rnode):
@@ -591,8 +608,16 @@ class UnitLib(Lib):
             return res.with_(unit=None, kind=None, idx=None)
         return res
 
+    @staticmethod
+    def _flip(kind):
+        if kind is None:
+            return fs("neg")
+        return (kind - {"neg"}) if "neg" in kind else (kind | {"neg"})
+
     def negate(self, it, node, v, res):
-        return res.with_(unit=v.unit, kind=v.kind, scale=None
+        k = self._flip(v.kind) if (v.unit is not None or
+                                   v.kind is not None) else v.kind
+        return res.with_(unit=v.unit, kind=k, scale=None
                          if v.scale is None else -v.scale)
 
     # ---- subscripts ----------------------------------------------------------
@@ -641,6 +666,28 @@ class UnitLib(Lib):
         if base.cls == "shape" and ivs and isinstance(ivs[0].cval, int) and \
                 base.elts is not None and ivs[0].cval in (0, 1):
             return base.elts[ivs[0].cval]
+        # one pixel of a 2-d array  arr[r, c]: the first index runs along
+        # rows, the second along columns
+        if isinstance(sl, ast.Tuple) and len(sl.elts) == 2 and \
+                not any(isinstance(e, (ast.Slice, ast.Starred))
+                        for e in sl.elts) and \
+                base.cls in ("ndarray", None) and base.elts is None:
+            for pos, e in enumerate(sl.elts):
+                ev_ = it.eval(e, env)
+                want = "row" if pos == 0 else "col"
+                if isinstance(ev_.idx, Idx) and ev_.idx.axis and \
+                        ev_.idx.axis != want:
+                    self.report(it, n, "idx-slice-axis",
+                                "a %s index (%s) is used as the %s index "
+                                "of a 2-d array" % (ev_.idx.axis, norm(e),
+                                                    want),
+                                {"index": ev_.short()})
+                elif isinstance(ev_.idx, Idx) and ev_.idx.crossed:
+                    self.report(it, n, "idx-slice-axis",
+                                "the %s index %s of a 2-d array mixes the "
+                                "axes: %s" % (want, norm(e),
+                                              ev_.idx.crossed),
+                                {"index": ev_.short()})
         # image cut-outs  arr[r0:r1, c0:c1]
         if isinstance(sl, ast.Tuple) and len(sl.elts) == 2 and \
                 all(isinstance(e, ast.Slice) for e in sl.elts) and \
@@ -1178,12 +1225,17 @@ def facet_mismatch(want: AV, got: AV, idx=True, other=True, axes=True):
                    "conversion) where %s is required" %
                    (sorted(got.unit), got.scale, sorted(want.unit)))
     if other and want.kind is not None and got.kind is not None:
-        for fam in (WIDTH_KINDS, POS_KINDS) + ((AXIS_KINDS,) if axes
-                                                else ()):
+        for fam in (WIDTH_KINDS, POS_KINDS, SEXA_KINDS) + (
+                (AXIS_KINDS,) if axes else ()):
             w, g = want.kind & fam, got.kind & fam
             if w and g and not (w & g):
                 out.append("%s where %s is required" % (sorted(g),
                                                         sorted(w)))
+    if other and want.kind is not None and "ang" in want.kind and \
+            got.kind is not None and "neg" in got.kind:
+        out.append("the NEGATED angle where the angle itself is required "
+                   "(position angles are measured East of North, rotations "
+                   "counter-clockwise: the sign is part of the convention)")
     if idx and isinstance(want.idx, Idx) and isinstance(got.idx, Idx):
         wi, gi = want.idx, got.idx
         if wi.axis and gi.axis and wi.axis != gi.axis:
